@@ -81,6 +81,9 @@ def gen_cat(direction, t, blocks, tier):
           group=fxn, solver="kissat")
     h.slice = slice_for(t)
     h.heavy = True
+    # the dispatchers collect the blocks' kinds in a HashSet<ValueKind>: all-colliding hasher stub, see c14.HASHER_STUBS
+    from .c14 import STUB_RS, STUB_DH
+    h.attrs = [STUB_RS] + STUB_DH
     return h
 
 
@@ -108,7 +111,8 @@ def plan(tier, seed):
     pre, extracted = {}, {}
     for where, fx, rel in ((WH, "impl_horzcat_fxn", "src/interpreter/src/stdlib/horzcat.rs"), (WV, "impl_vertcat_fxn", "src/interpreter/src/stdlib/vertcat.rs")):
         t_, h_ = extract_dispatch_fn(read_repo(rel), fx, rel)
-        pre[where] = t_
+        from .c14 import HASHER_STUBS
+        pre[where] = HASHER_STUBS + t_
         extracted[fx] = h_
     return {
         "harnesses": hs,
